@@ -653,6 +653,39 @@ def r13(ctx):
         ctx.check(c.get("v") == 1 << bit, "permissions:mask:%s" % nm, "%s = bit %d" % (nm, bit))
 
 
+CODE_ENUMS = ["app::control_enums::CommandStatus", "app::control_enums::OpType", "app::control_enums::TripCloseCode", "link::function::Function"]
+
+
+def r14(ctx):
+    """`from(u8)` keeps a code it has no name for as `Unknown(x)` with x exactly as received (a masked or shifted payload maps two
+    wire values to one), and equality on these enums is the derived one (variant AND payload): a hand-written `eq` that compares
+    `as_u8()` makes `Unknown(0)` equal `Success`, so a status octet that merely normalises to 0 passes the command echo check."""
+    prog = ctx.prog
+    n = 0
+    for bd in prog.bodies.values():
+        if "::test" in bd.path:
+            continue
+        sym = None
+        for b, si, st in bd.assigns():
+            rv = st.rv
+            if rv["k"] == "agg" and rv.get("ak") == "enum" and rv.get("var") == "Unknown" and rv.get("ops") and any(rv["adt"].endswith(x.split("::")[-1]) for x in CODE_ENUMS):
+                sym = sym or ctx.sym(bd)
+                e = sym.rvalue_expr(rv)
+                v = e[3][0][1]
+                n += 1
+                ctx.check(v[0] == "param", "unknown-preserved@%s" % short(bd.path), "%s::Unknown(%s)" % (rv["adt"].split("::")[-1], expr_str(v)[:40]), bd.where(b.idx), bad_detail="%s builds Unknown(%s): the received code is altered before it is stored" % (short(bd.path), expr_str(v)[:60]))
+    if n < 4:
+        raise AnchorError("Unknown(x) constructions: %d" % n)
+    for en in CODE_ENUMS:
+        name = en.split("::")[-1]
+        eqs = [b for b in prog.bodies.values() if re.search(r"<dnp3::%s as std::cmp::PartialEq>::eq$" % re.escape(en), b.path)]
+        if len(eqs) != 1:
+            raise AnchorError("PartialEq for %s (%d)" % (name, len(eqs)))
+        eb = eqs[0]
+        # the derive compares discriminants first (intrinsics::discriminant_value); a hand-written eq over a projection does not
+        derived = any((c.term.callee or c.term.declared or "").endswith("discriminant_value") for c in eb.calls()) and not any((c.term.callee or "").startswith("dnp3::") and "as_u8" in (c.term.callee or "") for c in eb.calls())
+        ctx.check(derived, "derived-eq:%s" % name, "%s == is variant-sensitive (derived)" % name, eb.where(line=eb.line), bad_detail="PartialEq for %s is not the derived, variant-sensitive comparison" % name)
+
 RULES = [
     ("C09.R1", "T6", "FixedSize codecs: read sequence = write sequence, widths sum to SIZE", r1),
     ("C09.R2", "T4", "Variation::lookup / to_group_and_var inverse; names equal numbers; VARIATION constants", r2),
@@ -666,4 +699,5 @@ RULES = [
     ("C09.R13", "T4/T11", "file permissions: writer and parser use the same bit layout (world/group/owner x execute/write/read)", r13),
     ("C09.R9", "T6/T10", "device attribute values: writer and parser agree on width and signedness for every encoded length", r9),
     ("C09.R12", "T2", "relative-time events are written as time - CTO only when representable (shared with C10.R4)", r12),
+    ("C09.R14", "T4/T9", "codes without a named variant are preserved unmodified (Unknown(x)); code enums compare by derived, variant-sensitive equality", r14),
 ]
